@@ -374,6 +374,15 @@ func Gen(r *core.Rng, o GenOpts) (*History, gen.Set) {
 	for _, t := range set.Texts {
 		add(Op{Kind: "parse", H: 0, Dst: 0, Text: t})
 	}
+	nextVar := 1
+	for _, m := range set.Modes {
+		if m == "empty-callee" {
+			// a template that exists but has no body: New without Parse
+			add(Op{Kind: "tnew", H: 0, Dst: nextVar, Name: "emptyT"})
+			nextVar++
+			break
+		}
+	}
 	if o.ExtraDefs && r.Intn(3) == 0 {
 		fn := r.Pick([]string{"fromfile", "m0", "h0"})
 		add(Op{Kind: []string{"parsefiles", "parseglob", "parsefs"}[r.Intn(3)], H: 0, Dst: 0, Name: fn, Text: r.Pick([]string{"<i>file {{$.S0}}</i>", "<p title=\"{{$.S1}}\">f</p>", "static file"})})
@@ -384,7 +393,6 @@ func Gen(r *core.Rng, o GenOpts) (*History, gen.Set) {
 	}
 	live := []int{0} // variables holding handles of the main set
 	cloneVars := []int{}
-	nextVar := 1
 	maxOps := o.MaxOps
 	if maxOps == 0 {
 		maxOps = 12
